@@ -75,6 +75,15 @@ fn yield_handler(ev: &Ev) {
     });
 }
 
+pub fn install_delays(seed: u64) {
+    DELAY_SEED.store(seed, Ordering::SeqCst);
+    rec::set_yield_handler(Some(Arc::new(yield_handler)));
+}
+pub fn remove_delays() {
+    DELAY_SEED.store(0, Ordering::SeqCst);
+    rec::set_yield_handler(None);
+}
+
 // ------------------------------------------------------------------ monitor
 
 pub struct Monitor {
